@@ -17,7 +17,9 @@ AXIOMS_OK = FLOAT_AXIOMS
 # rests on Individual.__hash__ / __eq__, whose source is translated on every run and proved equal to Model/IndividualEq.v
 from harness.core import translated_specs
 # and (guard mode) the test `max_distance > 0.0` of crowding_distance is translated and proved equal to the model's
-TRANSLATED = translated_specs("IndividualEqGen", "CrowdingGuardGen", "SelectionGen")
+# and (heap front-end tools/py2coq_heap.py, phase 5) crowding_distance is translated WHOLE (object store for
+# features['crowding_distance'], list.sort permuting references) and proved equal to Selection.crowding
+TRANSLATED = translated_specs("IndividualEqGen", "CrowdingGuardGen", "SelectionGen", "CrowdingGen")
 TRUSTED = [
     "Coq 8.16.1 kernel; vm_compute for model evaluation (no native_compute)",
     "hand-written model Model/Selection.v tied to operators.py by this correspondence run (crowding values bit for bit, id lists and winners exactly)",
